@@ -1,4 +1,5 @@
 """C12 — Local (unsync) metrics hand over exactly what they accumulated (DESIGN §4.C12)."""
+import re
 from pvrules.mir import is_call, peel, show, strip_generics, subterms
 from pvrules.rules import PURE, SELF_FIELD, const_int, count_range, effect_calls, elem_of, try_continue_block
 from . import hist_conc as hcc
@@ -164,19 +165,45 @@ def rule_vec_forms(ctx, f, rid):
                 ok = cont is not None and r.all_paths_pass(cont, [rm[0].bb]) and r.dominates(rm[0].bb, dl[0].bb) and rm[0].bb != dl[0].bb
             ctx.ob(rid, ty + "::remove_label_values|local-first", ok,
                    "remove_label_values must drop the local entry on every path on which the labels are well-formed, before (and independent of the result of) deleting the shared child", site=r.raw["span"]["at"])
+        # construction, however it is cut into functions (private `new`, `local()` building the value, `clone` through `local()`): an empty cache around a clone of the vector
+        from pvrules import inline
+        from pvrules.rules import agg_field
+        shared = "GenericCounterVec" if "Counter" in ty else "HistogramVec"
+        # `vec.local()` lives in `impl MetricVec<..Builder>`: found by its name and return type
+        local_fns = [k for k in f.order if k.endswith("::local") and re.sub(r"<.*$", "", f.bodies[k].local_ty(0)).endswith("::" + ty)]
+        ctor = lambda pth, local_fns=local_fns: strip_generics(pth) == path + "new" or pth in local_fns   # noqa: E731
+
+        def fresh(rr, src):
+            return isinstance(rr, tuple) and rr and rr[0] == "agg" and agg_field(rr, "vec") is not None and is_call(agg_field(rr, "vec"), "Clone::clone") and peel(agg_field(rr, "vec")) == src \
+                and is_call(agg_field(rr, "local"), ["HashMap::with_capacity", "HashMap::new", "Default::default"])
         c = ctx.anchor(rid, ty + "::clone", f.body("<%s as std::clone::Clone>::clone" % (path[:-2] + ("<P>" if "Counter" in ty else ""))))
         if c:
             ctx.saw(c)
-            rr = c.term_local(0)
-            ok = is_call(rr, ty + "::new") and is_call(rr[2][0], "Clone::clone") and peel(rr[2][0]) == SELF_FIELD("vec")
-            ctx.ob(rid, ty + "::clone|starts-empty", ok, "a cloned local vector must be new(self.vec.clone()), i.e. have no locals", site=c.raw["span"]["at"])
-        n = ctx.anchor(rid, ty + "::new", f.body(path + "new"))
+            rr = inline.expand_body(f, c, ctor).term_local(0)
+            ctx.ob(rid, ty + "::clone|starts-empty", fresh(rr, SELF_FIELD("vec")), "a cloned local vector must be a fresh local of self.vec.clone(), i.e. have no locals (found %s)" % show(rr)[:300], site=c.raw["span"]["at"])
+        lo = ctx.anchor(rid, shared + "::local", f.bodies[local_fns[0]] if len(local_fns) == 1 else None)
+        if lo:
+            ctx.saw(lo)
+            rr = inline.expand_body(f, lo, ctor).term_local(0)
+            ctx.ob(rid, shared + "::local|starts-empty", fresh(rr, P(1)), "vec.local() must wrap a clone of that vector with an empty cache (found %s)" % show(rr)[:300], site=lo.raw["span"]["at"])
+        n = f.body(path + "new")
         if n:
             ctx.saw(n)
             rr = n.term_local(0)
-            from pvrules.rules import agg_field
             ok = rr[0] == "agg" and agg_field(rr, "vec") == P(1) and is_call(agg_field(rr, "local"), ["HashMap::with_capacity", "HashMap::new", "Default::default"])
             ctx.ob(rid, ty + "::new|empty-map", ok, "a new local vector wraps the vector with an empty cache", site=n.raw["span"]["at"])
+        n_aggs = 0
+        for k in f.order:
+            bd = f.bodies[k]
+            for bi in bd.reachable_blocks():
+                for st in bd.blocks[bi]["stmts"]:
+                    if st["k"] == "assign" and st["rv"]["k"] == "agg" and (st["rv"].get("adt") or "").endswith("::" + ty):
+                        n_aggs += 1
+                        t = bd.term_rvalue(st["rv"])
+                        ctx.ob(rid, "%s|construction|%s|empty-map" % (ty, strip_generics(bd.path).split("::")[-1]),
+                               is_call(agg_field(t, "local"), ["HashMap::with_capacity", "HashMap::new", "Default::default"]),
+                               "every %s must be created with an empty cache (found %s)" % (ty, show(t)[:200]), site=bd.raw["span"]["at"])
+        ctx.floor(rid, ty + " constructions", n_aggs, 1)
     adt = f.adt(H + "LocalHistogramVec")
     if adt:
         fs = {x["name"]: x["ty"] for x in adt["variants"][0]["fields"]}
